@@ -25,6 +25,9 @@ func (x *Exec) exprText(pos token.Pos, fallback string) string {
 		if p.Column-1 < len(l) {
 			l = l[p.Column-1:]
 		}
+		if k := strings.Index(l, "//"); k >= 0 {
+			l = l[:k] // comments are not part of the obligation's name
+		}
 		l = strings.TrimSpace(l)
 		if len(l) > 40 {
 			l = l[:40]
@@ -119,6 +122,7 @@ func (x *Exec) instr(fr *Frame, b *ssa.BasicBlock, st *State, ins ssa.Instructio
 		}
 		fr.retVals = append(fr.retVals, rs)
 		fr.retState = append(fr.retState, st.clone())
+		fr.retBlock = append(fr.retBlock, b)
 	case *ssa.Panic:
 		x.panicInstr(fr, st, v)
 	case *ssa.Defer:
@@ -688,7 +692,7 @@ func (x *Exec) convertTerm(st *State, a Term, from, to types.Type) Term {
 		if fs == "Slice" && ts == "Str" {
 			// content of the slice at this state
 			es := x.S.SortOf(from.Underlying().(*types.Slice).Elem())
-			hn, hs := x.S.ElemHeap(es)
+			hn, hs := x.S.ElemHeapT(from.Underlying().(*types.Slice).Elem())
 			h := x.heapGet(st, hn, hs)
 			fn := "bytes2str$" + sortTag(es)
 			x.declUF(fn, fmt.Sprintf("(%s %s %s) Str", arraySort(x.S.Idx(), es), x.S.Idx(), x.S.Idx()))
@@ -707,7 +711,7 @@ func (x *Exec) convertTerm(st *State, a Term, from, to types.Type) Term {
 			z := x.S.IdxLit(0)
 			sl := Term{app("mk_slice", ref, z, ln, ln), "Slice"}
 			es := x.S.SortOf(to.Underlying().(*types.Slice).Elem())
-			hn, hs := x.S.ElemHeap(es)
+			hn, hs := x.S.ElemHeapT(to.Underlying().(*types.Slice).Elem())
 			h := x.heapGet(st, hn, hs)
 			fn := "str2bytes$" + sortTag(es)
 			x.declUF(fn, fmt.Sprintf("(Str) %s", arraySort(x.S.Idx(), es)))
